@@ -133,7 +133,7 @@ func (c *clusterFam) op(a []string) string {
 		}
 		f := &replicaFam{wireFam: c.world, fetchable: map[hotstuff.Hash]*hotstuff.Block{}, pfx: fmt.Sprintf("r%d", i),
 			cmdClient: uint32(100 + i), cluster: c}
-		res := f.build(i, kv["rules"], kv["leader"])
+		res := f.build(i, kv["rules"], kv["leader"], false)
 		if res != "ok" {
 			return res
 		}
